@@ -272,6 +272,9 @@ def sqlite_layer(ctx, rng):
                     col['cells'] = [None if c is None else max(-2 ** 62, min(2 ** 62, c)) for c in col['cells']]
                 if t == 'string':
                     col['cells'] = [None if c is None else c for c in col['cells']]      # '' stays: a string of length 0, not NULL
+                    if col['cells'] and rng.random() < 0.3:
+                        # text with embedded NULs (SQLite's LENGTH() stops at the first one; the string does not)
+                        col['cells'][rng.randrange(len(col['cells']))] = rng.choice(['ab\x00\x00', '\x00', 'a\x00bcdefghijklmnopqrstuvwxyz'])
                 col['cells'] = (col['cells'] + [None] * nrows)[:nrows]
                 cols[nm] = col
             decl = {'int': 'integer', 'real': 'real', 'string': 'text', 'bool': 'boolean'}
